@@ -181,6 +181,13 @@ def _answer_pred(ctx, repo, m, fn, k, accs):
             continue
         R = _expand(p.term_node.value, env)
         decided = True
+        if isinstance(R, ast.Constant) and isinstance(R.value, bool):
+            extra = [ast.unparse(t) for t, tr in p.conds() if ast.unparse(t) != f"{pname}.has_avp('result_code_avp')"]
+            ctx.violate("R-INTERVAL/answer", construct, where,
+                        f"with a Result-Code present a path returns the constant {R.value} (under {extra}) without looking at the "
+                        f"code: the predicate {'holds for codes outside' if R.value else 'fails for codes inside'} the {k}xxx family "
+                        f"(and, with another family's predicate, more than one family can hold for one code)", key="constant_return")
+            continue
         # (a) delegation
         if isinstance(R, ast.Call) and isinstance(R.func, ast.Name) and len(R.args) == 1:
             mm = re.fullmatch(r"is_result_code_family_([1-5])xxx", R.func.id)
